@@ -200,6 +200,8 @@ def gen_scenario(rng, knobs=None):
             return rng.choice(TRUTHY if rng.random() < 0.65 else FALSY)
         if rng.random() < K["ret_none"]:
             return None
+        if rng.random() < K.get("odd_values", 0.0):
+            return rng.choice([{"o": 5, "b": True, "eq": 1}, {"x": 3}, {"x": 4}])     # equal-to-everything / an exception object
         return rng.choice(VALUES)
 
     def script_for(key, group):
@@ -372,8 +374,36 @@ def gen_scenario(rng, knobs=None):
     if len(acoro) >= 2 and rng.random() < K.get("wrapped_coros", 0.0):
         cand = [list(x) for x in acoro[1:]]
         wrapped_coros = [x for x in cand if rng.random() < 0.5]
+    # a couple of names provided by the model / listeners only are also ids of states
+    if rng.random() < K.get("stateid_names", 0.0):
+        mine = {tuple(nm) for nm in provs[0]}
+        cands = sorted({tuple(nm) for prov in provs[1:] for nm in prov if nm[0] == 0 and nm[1] < 300} - mine)
+        rng.shuffle(cands)
+        ren = {c: [0, 300 + j] for c, j in zip(cands[:2], rng.sample(range(n), min(2, n, len(cands[:2]))))}
+
+        def rn(nm):
+            return list(ren.get(tuple(nm), nm))
+        for t in trans:
+            for g in ("val", "before", "on", "after"):
+                t[g] = [rn(x) for x in t[g]]
+            t["cond"] = [[rn(nm), b_] for nm, b_ in t["cond"]]
+        for st in states:
+            for g in ("enter", "exit"):
+                st[g] = [rn(x) for x in st[g]]
+        provs = [[rn(nm) for nm in prov] for prov in provs]
+        for row in tbl:
+            if (row[1], row[2]) in ren:
+                row[1], row[2] = ren[(row[1], row[2])]
+        acoro = [[p_, *ren.get((kd, k_), [kd, k_])] for p_, kd, k_ in acoro]
+    lstyles = {}
+    if rng.random() < K.get("lstyles", 0.0):
+        coro_p = {x[0] for x in acoro}
+        for p_ in range(2, len(provs)):
+            if p_ not in coro_p and rng.random() < 0.6:
+                lstyles[str(p_)] = rng.choice(["classobj", "proxy"])
     hosted = rng.random() < K.get("hosted", 0.0)
-    return {"wrapped_coros": wrapped_coros, "base_exc": rng.random() < K.get("base_exc", 0.0), "stop_iter": rng.random() < K.get("stop_iter", 0.0), "any_group": any_group, "hosted": hosted, "callable_names": callable_names, "state_decor": state_decor, "decor": decor,
+    return {"lstyles": lstyles, "recording_model": rng.random() < K.get("recording_model", 0.0),
+            "user_tna": rng.random() < K.get("user_tna", 0.0), "wrapped_coros": wrapped_coros, "base_exc": rng.random() < K.get("base_exc", 0.0), "stop_iter": rng.random() < K.get("stop_iter", 0.0), "any_group": any_group, "hosted": hosted, "callable_names": callable_names, "state_decor": state_decor, "decor": decor,
             "evstyle": style, "mixed": mixed, "values": values, "async": acoro, "falsy_machine": rng.random() < K["falsy_machine"], "n": n, "initial": initial, "finals": finals, "ne": ne, "trans": trans, "states": states,
             "provs": provs, "start": start, "rtc": rtc, "allow": rng.random() < K["allow"],
             "field0": field0, "tbl": tbl, "ops": ops,
